@@ -492,6 +492,8 @@ def run(prop, tier):
     configs = THOROUGH_CONFIGS if tier == 'thorough' else QUICK_CONFIGS
     for cfg in configs:
         prog = load_program(cfg, root)
+        from .dataflow import register_identity_functions
+        register_identity_functions(prog)
         rep.cur_config = cfg
         rep.configs.append(cfg)
         if not rep.units:
